@@ -444,7 +444,15 @@ pub fn run_case(tape: &mut Tape, _tier: Tier, _p: &CaseParams) -> CaseOutcome {
           "C19",
           "partition-equals-at-once",
           format!(
-            "partition:entry:{}-vs-{}",
+            "partition:{}entry:{}-vs-{}",
+            if si.get(k).is_some()
+              && sa.get(k).is_some()
+              && crate::checks::worlds::context_sensitive(&world, k)
+            {
+              "first-visitor-context:"
+            } else {
+              ""
+            },
             class(si.get(k)),
             class(sa.get(k))
           ),
@@ -564,7 +572,15 @@ pub fn run_case(tape: &mut Tape, _tier: Tier, _p: &CaseParams) -> CaseOutcome {
           "C19",
           "reload-converges",
           format!(
-            "reload:{}{}",
+            "reload:{}{}{}",
+            if !same_slot
+              && rv.is_some()
+              && crate::checks::worlds::context_sensitive(&world2, k)
+            {
+              "first-visitor-context:"
+            } else {
+              ""
+            },
             if !same_slot {
               format!("entry:{}-vs-{}", slot_class(rv), slot_class(Some(v)))
             } else {
